@@ -167,7 +167,7 @@ func runCheck(repo, root, id, tier string, seed int, mutant string, writeEvidenc
 	var violations []violation
 	var known []string
 	internal := 0
-	var vcs []*VC
+	var vcs, findingVCs []*VC
 	writeReplay := func(name string, body map[string]any) string {
 		os.MkdirAll(replayDir, 0o755)
 		path := filepath.Join(replayDir, sanitizeFile(name)+".json")
@@ -188,6 +188,26 @@ func runCheck(repo, root, id, tier string, seed int, mutant string, writeEvidenc
 			continue
 		}
 		vc := newVC(env, fn, d)
+		vc.carved = hasClause(d, "carveout")
+		if vc.carved {
+			// the uncarved function is verified too, for the obligations recorded as known findings:
+			// they are expected to fail (canary), while the carved-out obligations must discharge
+			vu := newVC(env, fn, d)
+			if err := vu.generate(); err == nil {
+				var keep []*Obligation
+				for _, o := range vu.obls {
+					for _, f := range findings {
+						if f.Property == id && f.Status == "open" && strings.HasPrefix(o.Name, f.Obligation) && claimed(prop, o) {
+							o.Expect = "finding:" + f.ID
+							keep = append(keep, o)
+							break
+						}
+					}
+				}
+				vu.obls = keep
+				findingVCs = append(findingVCs, vu)
+			}
+		}
 		if err := vc.generate(); err != nil {
 			name := k + "#binding"
 			path := writeReplay(name, map[string]any{"reason": "verification conditions cannot be generated for the current body of " + k + ": " + err.Error()})
@@ -209,7 +229,21 @@ func runCheck(repo, root, id, tier string, seed int, mutant string, writeEvidenc
 		timeout = 60
 		all = true
 	}
-	discharge(vcs, runOpts{scratch: scratch, timeoutS: timeout, all: all, workers: 8})
+	discharge(append(append([]*VC{}, vcs...), findingVCs...), runOpts{scratch: scratch, timeoutS: timeout, all: all, workers: 8})
+	stillFails := map[string]bool{}
+	for _, vu := range findingVCs {
+		for _, o := range vu.obls {
+			fid := strings.TrimPrefix(o.Expect, "finding:")
+			if o.Result != nil && o.Result.Answer != "unsat" {
+				stillFails[fid] = true
+			}
+		}
+	}
+	for _, f := range findings {
+		if f.Property == id && f.Status == "open" && stillFails[f.ID] {
+			known = append(known, fmt.Sprintf("KNOWN-FINDING: property=%s %s %s %s", id, f.ID, f.Obligation, f.What))
+		}
+	}
 
 	total, discharged, covers := 0, 0, 0
 	byBackend := map[string]int{}
@@ -265,7 +299,7 @@ func runCheck(repo, root, id, tier string, seed int, mutant string, writeEvidenc
 			// failed: known finding?
 			matched := false
 			for _, f := range findings {
-				if f.Property == id && f.Status == "open" && strings.HasPrefix(o.Name, f.Obligation) {
+				if f.Property == id && f.Status == "open" && strings.HasPrefix(o.Name, f.Obligation) && !vc.carved {
 					matched = true
 					line := fmt.Sprintf("KNOWN-FINDING: property=%s %s %s %s", id, f.ID, f.Obligation, f.What)
 					dup := false
